@@ -11,11 +11,30 @@ from formulaic.utils.structured import Structured
 _PARSERS = {}
 
 
-def parser_for(cfg: dict) -> DefaultFormulaParser:
-    key = (cfg["intercept"], tuple(sorted(cfg["flags"])))
+def parser_for(cfg: dict, route: int = 0) -> DefaultFormulaParser:
+    """The parser of a configuration.  A configuration is a configuration however it was reached: route 0 constructs the parser with
+    it, route 1 reaches it by reconfiguring a parser that has already parsed under the complementary flags and the other intercept
+    setting (so a stale cache of the first configuration would show)."""
+    key = (cfg["intercept"], tuple(sorted(cfg["flags"])), route)
     if key not in _PARSERS:
-        _PARSERS[key] = DefaultFormulaParser(include_intercept=cfg["intercept"], feature_flags=set(cfg["flags"]))
+        if route == 0:
+            _PARSERS[key] = DefaultFormulaParser(include_intercept=cfg["intercept"], feature_flags=set(cfg["flags"]))
+        else:
+            other = {"TWOSIDED", "MULTIPART", "MULTISTAGE"} - set(cfg["flags"])
+            p = DefaultFormulaParser(include_intercept=not cfg["intercept"], feature_flags=other)
+            for s in ("a + b", "a ~ b", "a | b", "[a ~ b]"):
+                try:
+                    p.get_terms(s)
+                except Exception:  # noqa
+                    pass
+            p.set_feature_flags(set(cfg["flags"]))
+            p.include_intercept = cfg["intercept"]
+            _PARSERS[key] = p
     return _PARSERS[key]
+
+
+def _route(s: str) -> int:
+    return (sum(map(ord, s)) + len(s)) % 2
 
 
 def context_for(cfg: dict):
@@ -113,8 +132,8 @@ def observe(fn, timeout: int = 20) -> dict:
 
 
 def parse_terms(s: str, cfg: dict) -> dict:
-    return observe(lambda: parser_for(cfg).get_terms(s, context=context_for(cfg)))
+    return observe(lambda: parser_for(cfg, _route(s)).get_terms(s, context=context_for(cfg)))
 
 
 def parse_formula(s: str, cfg: dict) -> dict:
-    return observe(lambda: Formula(s, _parser=parser_for(cfg), _context=context_for(cfg)))
+    return observe(lambda: Formula(s, _parser=parser_for(cfg, 1 - _route(s)), _context=context_for(cfg)))
